@@ -366,6 +366,18 @@ def groups (n : Nat) (bs : Bytes) : List Bytes :=
 termination_by bs.length
 decreasing_by simp [List.length_drop]; omega
 
+/-- `String::from_utf8(b).unwrap_or_default()` as bytes -/
+def utf8OrEmpty (b : Bytes) : Bytes := if utf8Valid b then b else []
+
+/-- `flowspec.rs::read_nlri_len`: (length, octets of the length field) -/
+def readFlowNlriLen : Bytes → Option (Nat × Nat)
+  | [] => none
+  | first :: rest =>
+      if first < 240 then some (first, 1)
+      else match rest with
+        | [] => none
+        | second :: _ => some ((first % 16) * 256 + second, 2)
+
 /-- `Capability::decode`; `none` = `Err(())`.  (`Family(u32)` keeps the reserved byte in the real code;
     the reader drops it, which cannot be observed through `afi()`/`safi()`.) -/
 def decodeCap (code : Nat) (v : Bytes) : Option Cap :=
@@ -408,9 +420,8 @@ def decodeCap (code : Nat) (v : Bytes) : Option Cap :=
           | dl :: rest2 =>
               if 2 + hl + dl > v.length then none
               else
-                -- `String::from_utf8(..).unwrap_or_default()`: ASCII only in the model
-                let asc (b : Bytes) : Bytes := if b.all (· < 128) then b else []
-                some (.fqdn (asc host) (asc (rest2.take dl)))
+                -- `String::from_utf8(..).unwrap_or_default()`
+                some (.fqdn (utf8OrEmpty host) (utf8OrEmpty (rest2.take dl)))
   else some (.unk code v)
 
 def decodeCaps : List (Nat × Bytes) → Option (List Cap)
